@@ -53,6 +53,12 @@ RULES = {
            "EvaluationError, .source is the object called, the cause chain ends in the original exception object / names the "
            "specification's missing key; then all dictionaries of the graph in several orders on one long-lived instance: every "
            "outcome equals a fresh copy's (a failure stored nothing); non-trivial = the evaluation fails",
+    "C16": "family caching (datasets with callbacks/effects, mixed nocache): per (graph, dictionary) a sample of 4 (quick) / all 45 "
+           "(thorough) settings of cache{on,DISABLED,DISABLE,context,nocache} x effects{on,option,per-dataset} x logging{on,option,"
+           "context}, each applied to one evaluation inside a history cold -> plain -> switched -> plain on a long-lived real graph: "
+           "values equal the all-switches-off fresh value; disabled cache neither reads nor writes (recompute, next enabled evaluation "
+           "recomputes once, stored entry survives); no effect when disabled; no logging record when disabled, otherwise exactly one "
+           "INFO record per dataset evaluation not served from a cache; non-trivial = graph contains a dataset",
     "C03": "same CASE export grouped by graph: keys() present-only; evaluate()/keys() on the dictionary restricted to keys() (the "
            "specification's Restrict) unchanged; for ALL pairs of dictionaries of a graph the fingerprints are equal iff reported "
            "keys and their values are equal (this enumerates every change/delete/add perturbation inside the universe); "
@@ -156,6 +162,9 @@ def _init_worker(prop):
     global _PROP, _LAB
     _PROP = prop
     _LAB = import_labrea()
+    from .common import tier as _tier
+
+    verdicts.TIER[0] = _tier()
 
 
 def _work(groups):
